@@ -128,6 +128,8 @@ def draw(rng, i):
         p = {"first": 0, "last": len(vals), "middle": len(vals) // 2, "random": rng.randint(0, len(vals))}[where if not pos else "random"]
         vals.insert(p, o)
         pos = [q + (1 if q >= p else 0) for q in pos] + [p]
+    if rng.random() < 0.12 and not base.get("dyadic") and all(isinstance(v, int) for v in vals) and sum(vals) < 2 ** 31:
+        base["pres"] = "array_u"          # unsigned numpy array: `binsize - value` style tests wrap around instead of going negative
     base.update(kind="pack_oversize", values=vals, oversize_positions=sorted(pos), ot=rng.choice(OTS), cls="oversize/" + where)
     return base
 
